@@ -156,6 +156,36 @@ CtxWrapAlphabet(t) ==
 CtxWrapSizes == {<<1, 2>>, <<2, 2>>}
 CtxWrapResizes(t) == {}
 
+\* ------------------------------------------------------------- all pairs of functions from interesting states
+(* One representative of EVERY Function (two where a parameter selects a different path), every ordered pair of  *)
+(* them (depth 2), from each of a handful of prepared states: content with a soft-wrapped row and scrollback,    *)
+(* plus one of: nothing; origin mode + region; the alternate screen; insert mode + auto-wrap off + new-line      *)
+(* mode; a pending wrap with a coloured pen; a saved context taken in origin mode; a region that stops short of  *)
+(* the last row with the cursor below it.  The lean family models go deeper on one mechanism each; this one is    *)
+(* the safety net across mechanisms.                                                                              *)
+PairsContent == <<65, 66, 13, 10, 67, 68, 69, 70, 13, 10, 71, 13, 10, 72, 73>>     \* AB / CDEF (wraps on 3 columns) / G / HI
+PairsPreludes ==
+  { <<>>,
+    <<27, 91, 50, 59, 51, 114, 27, 91, 63, 54, 104>>,                          \* CSI 2;3 r  CSI ?6h
+    <<27, 91, 63, 49, 48, 52, 57, 104, 120, 121>>,                             \* CSI ?1049h x y
+    <<27, 91, 52, 104, 27, 91, 63, 55, 108, 27, 91, 50, 48, 104>>,             \* CSI 4h  CSI ?7l  CSI 20h
+    <<27, 91, 52, 49, 109, 27, 91, 50, 59, 57, 57, 72, 122>>,                  \* CSI 41m  CSI 2;99H z   (wrap pending)
+    <<27, 91, 63, 54, 104, 27, 91, 50, 59, 50, 72, 27, 55, 27, 91, 63, 54, 108>>,   \* CSI ?6h CSI 2;2H ESC 7 CSI ?6l
+    <<27, 91, 49, 59, 50, 114, 27, 91, 57, 57, 59, 50, 72>> }                  \* CSI 1;2 r  CSI 99;2H   (below the region)
+PairsFills == {PairsContent \o p : p \in PairsPreludes}
+PairsAlphabet(t) ==
+     {F0(f) : f \in {"Bs", "Ht", "Lf", "Cr", "So", "Nel", "Hts", "Ri", "Decsc", "Decrc", "Ris", "Decaln", "Scosc", "Scorc", "Decstr"}}
+  \cup {F1("Print", 97), F1("Gzd4", 1), F1("Ich", 1), F1("Cuu", 1), F1("Cud", 2), F1("Cuf", 1), F1("Cub", 1), F1("Cnl", 1), F1("Cpl", 1),
+       F1("Cha", 2), F1("Cht", 1), F1("Cbt", 1), F1("Ed", 0), F1("Ed", 1), F1("El", 0), F1("El", 1), F1("Il", 1), F1("Dl", 1), F1("Dch", 1),
+       F1("Su", 1), F1("Sd", 1), F1("Ech", 1), F1("Rep", 2), F1("Vpa", 3), F1("Vpr", 1), F1("Tbc", 0), F1("Ctc", 0)}
+  \cup {F2("Cup", 2, 2), F2("Cup", t.rows, t.cols), F2("Decstbm", 2, 3), F2("Decstbm", 0, 0)}
+  \cup {FS(f, <<m>>) : f \in {"Decset", "Decrst"}, m \in {6, 7, 1047, 1048, 1049}}
+  \cup {FS("Sm", <<4>>), FS("Rm", <<4>>), FS("Sm", <<20>>), FS("Sgr", <<<<48, 2>>>>), FS("Sgr", <<<<0, 0>>>>)}
+PairsSizes == {<<3, 4>>, <<9, 2>>}
+PairsSizesT == {<<3, 4>>, <<9, 2>>, <<2, 3>>, <<4, 5>>}
+PairsResizes(t) == {<<t.cols + 1, t.rows>>, <<t.cols, t.rows + 1>>} \cup {<<c, r>> \in {<<t.cols - 1, t.rows>>, <<t.cols, t.rows - 1>>} : c >= 1 /\ r >= 1}
+Lim1 == {1}
+
 \* ------------------------------------------------------------- C11: dump / restore
 DumpAlphabet(t) ==
      {F1("Print", 97), F0("Cr"), F0("Lf"), F0("So"), F1("Gzd4", 1), F1("G1d4", 1), F0("Hts"), F1("Tbc", 3), F0("Decsc")}
